@@ -1061,12 +1061,20 @@ pub struct ControlVars {
     tres: LValue,
     arr: usize,
     cnt: LValue,
+    /// a two-parameter FUNCTION (index into procs) for failing statements inside nested call arguments
+    cf: Option<usize>,
 }
 
 impl<'t, 'c> Gen<'t, 'c> {
     fn tok(&mut self, prefix: &str) -> Stmt {
         self.trace_seq += 1;
         pr(vec![s_lit(&format!("{}{}", prefix, self.trace_seq))])
+    }
+
+    /// a trace token that also shows ERR (0 again after every kind of RESUME)
+    fn tok_err(&mut self, prefix: &str) -> Stmt {
+        self.trace_seq += 1;
+        pr(vec![s_lit(&format!("{}{}", prefix, self.trace_seq)), Expr::BuiltIn { name: "ERR".into(), args: vec![], ty: Ty::Int }])
     }
 
     fn new_label(&mut self, prefix: &str) -> String {
@@ -1084,6 +1092,18 @@ impl<'t, 'c> Gen<'t, 'c> {
                 Stmt::Assign(LValue { name: "ARR%".into(), var: cv.arr, index: vec![ld(&cv.idx)], fields: vec![], sty: STy::B(Ty::Int) }, lit_i(7)),
             ],
             3 => vec![Stmt::Assign(cv.n.clone(), lit_i(-1)), Stmt::Assign(cv.tres.clone(), Expr::BuiltIn { name: "LEFT$".into(), args: vec![s_lit("abcdef"), ld(&cv.n)], ty: Ty::Str })],
+            5 => {
+                // the error is raised while the arguments of a call nested in another call's arguments are collected
+                let cf = cv.cf.expect("nested-call failing statement needs the helper function");
+                let inner = Expr::Call(cf, vec![lit_i(2), b(BinOp::Div, lit_i(10), ld(&cv.z))]);
+                vec![Stmt::Assign(cv.z.clone(), lit_i(0)), Stmt::Assign(cv.small.clone(), Expr::Call(cf, vec![lit_i(1), inner]))]
+            }
+            6 => {
+                // the statement has pushed a partial result, called a function (which returned), and fails afterwards
+                let cf = cv.cf.expect("failing statement after a call needs the helper function");
+                let sum = b(BinOp::Add, lit_i(1), Expr::Call(cf, vec![lit_i(1), lit_i(2)]));
+                vec![Stmt::Assign(cv.z.clone(), lit_i(0)), Stmt::Assign(cv.sres.clone(), b(BinOp::Add, sum, b(BinOp::Div, lit_i(10), ld(&cv.z))))]
+            }
             _ => vec![Stmt::Read(vec![cv.small.clone()])],
         }
     }
@@ -1205,7 +1225,7 @@ impl<'t, 'c> Gen<'t, 'c> {
         let cnt = sv("CNT%", self.add_var("CNT%".into(), STy::B(Ty::Int), vec![], true), Ty::Int);
         let sentinel = sv("SENT%", self.add_var("SENT%".into(), STy::B(Ty::Int), vec![], true), Ty::Int);
         let arr = self.add_var("ARR%".into(), STy::B(Ty::Int), vec![(0, 2)], true);
-        let cv = ControlVars { z, big, idx, n, small, sres, tres, arr, cnt };
+        let mut cv = ControlVars { z, big, idx, n, small, sres, tres, arr, cnt, cf: None };
         let mut main: Vec<Stmt> = vec![];
         main.push(Stmt::Dim(Dim { var: arr, name: "ARR%".into(), bounds: vec![(0, 2)], explicit_lower: false, sty: STy::B(Ty::Int), extended: false, shared: false }));
         main.push(Stmt::Assign(sentinel.clone(), lit_i(77)));
@@ -1218,6 +1238,18 @@ impl<'t, 'c> Gen<'t, 'c> {
                 let gi = self.prog.vars.iter().position(|v| v.name == *nm).unwrap();
                 self.prog.vars[gi].shared = true;
                 main.push(Stmt::Dim(Dim { var: gi, name: nm.to_string(), bounds: vec![], explicit_lower: false, sty: STy::B(*ty), extended: false, shared: true }));
+            }
+            // helper function for failing statements nested in call arguments
+            {
+                let vars = vec![
+                    VarInfo { name: "A%".into(), sty: STy::B(Ty::Int), bounds: vec![], shared: false },
+                    VarInfo { name: "B%".into(), sty: STy::B(Ty::Int), bounds: vec![], shared: false },
+                    VarInfo { name: "CF%".into(), sty: STy::B(Ty::Int), bounds: vec![], shared: false },
+                ];
+                let params = vec![Param { name: "A%".into(), var: 0, sty: STy::B(Ty::Int), array: false, extended: false }, Param { name: "B%".into(), var: 1, sty: STy::B(Ty::Int), array: false, extended: false }];
+                let body = vec![Stmt::Assign(sv("CF%", 2, Ty::Int), b(BinOp::Add, ld(&sv("A%", 0, Ty::Int)), ld(&sv("B%", 1, Ty::Int))))];
+                cv.cf = Some(self.prog.procs.len());
+                self.prog.procs.push(Proc { name: "CF%".into(), ret: Some(Ty::Int), params, is_static: false, body, vars, result_var: Some(2) });
             }
             let nsubs = 1 + self.t.choose(2);
             for k in 0..nsubs {
@@ -1234,13 +1266,13 @@ impl<'t, 'c> Gen<'t, 'c> {
                 for (i, v) in vars.iter().enumerate() {
                     self.scope.push(ScopeVar { idx: i, name: v.name.clone(), sty: v.sty.clone(), bounds: vec![], reserved: true, readable: true });
                 }
-                let pcv = ControlVars { z: lv[0].clone(), big: lv[1].clone(), idx: lv[0].clone(), n: lv[2].clone(), small: lv[3].clone(), sres: lv[4].clone(), tres: lv[5].clone(), arr: 0, cnt: lv[0].clone() };
+                let pcv = ControlVars { z: lv[0].clone(), big: lv[1].clone(), idx: lv[0].clone(), n: lv[2].clone(), small: lv[3].clone(), sres: lv[4].clone(), tres: lv[5].clone(), arr: 0, cnt: lv[0].clone(), cf: cv.cf };
                 let mut body = vec![self.tok("s")];
                 if k > 0 && self.t.chance(1, 2) {
                     body.push(Stmt::CallSub(sub_ids[0], vec![]));
                     body.push(self.tok("v"));
                 }
-                let kind = *self.t.pick(&[0usize, 1, 3]);
+                let kind = *self.t.pick(&[0usize, 1, 3, 5, 6, 5, 6]);
                 let f = self.failing(&pcv, kind);
                 let e = self.enclose(f);
                 body.extend(e);
@@ -1334,7 +1366,10 @@ impl<'t, 'c> Gen<'t, 'c> {
                 4 | 5 | 6 => {
                     // failing statement somewhere in a block; out-of-DATA only where RESUME would not retry it
                     let allow_read = active.map(|h| handler_resume[h] != 1).unwrap_or(true);
-                    let kind = if allow_read { self.t.choose(5) } else { self.t.choose(4) };
+                    let mut kind = if allow_read { self.t.choose(5) } else { self.t.choose(4) };
+                    if cv.cf.is_some() && self.t.chance(1, 4) {
+                        kind = 5 + self.t.choose(2);
+                    }
                     if kind == 4 {
                         has_data = true;
                     }
@@ -1385,17 +1420,17 @@ impl<'t, 'c> Gen<'t, 'c> {
             if resume_targets.len() < nh && self.t.chance(1, 3) {
                 let l = format!("LR{}", resume_targets.len() + 1);
                 main.push(Stmt::Label(l.clone()));
-                main.push(self.tok("l"));
+                main.push(self.tok_err("l"));
                 resume_targets.push(l);
             }
         }
         while resume_targets.len() < nh {
             let l = format!("LR{}", resume_targets.len() + 1);
             main.push(Stmt::Label(l.clone()));
-            main.push(self.tok("l"));
+            main.push(self.tok_err("l"));
             resume_targets.push(l);
         }
-        main.push(pr(vec![s_lit("end"), ld(&sentinel), ld(&cv.z), ld(&cv.big), ld(&cv.idx), ld(&cv.n), ld(&cv.small), ld(&cv.sres), ld(&cv.tres)]));
+        main.push(pr(vec![s_lit("end"), Expr::BuiltIn { name: "ERR".into(), args: vec![], ty: Ty::Int }, ld(&sentinel), ld(&cv.z), ld(&cv.big), ld(&cv.idx), ld(&cv.n), ld(&cv.small), ld(&cv.sres), ld(&cv.tres)]));
         main.push(Stmt::End);
         // GOSUB routines
         for (k, l) in routine_labels.iter().enumerate() {
